@@ -25,7 +25,7 @@ RULE = ("one evaluation = (function kind, lambda list, call) or (function kind, 
         "unpacking; distinct by (kind, lambda list, call). Body-rule cases (implicit return, docstring rule, "
         "generators, async generators) are evaluated too but never counted as non-trivial.")
 FLOOR = {"quick": 1500, "thorough": 1500}
-BUDGET = {"quick": 25, "thorough": 420}
+BUDGET = {"quick": 22, "thorough": 420}
 CASE_TIMEOUT = 20
 NEEDS_EVENTS = True
 EXHAUSTIVE = {"quick": False, "thorough": False}
